@@ -376,7 +376,7 @@ mutual
   /-- preamble: one bit per OPTIONAL / DEFAULT root member -/
   def encPreamble : Members → List (String × Val) → EncM Bits
     | .nil, _ => .ok []
-    | .cons name p _ rest, fs =>
+    | .cons name p t rest, fs =>
       match encPreamble rest fs with
       | .error e => .error e
       | .ok r =>
@@ -385,7 +385,7 @@ mutual
         | .optional => .ok ((lookup name fs).isSome :: r)
         | .default d =>
           match lookup name fs with
-          | some v => .ok ((!(v == d)) :: r)
+          | some v => .ok ((!(isDefault t v d)) :: r)
           | none => .ok (false :: r)
 
   /-- `encode_member` over a member list; `encDefault` = `encode_default` (used for additions) -/
@@ -396,7 +396,7 @@ mutual
         match lookup name fs with
         | some v =>
           match p with
-          | .default d => if !(v == d) || encDefault then enc t v else .ok []
+          | .default d => if !(isDefault t v d) || encDefault then enc t v else .ok []
           | _ => enc t v
         | none =>
           match p with
@@ -514,8 +514,9 @@ mutual
         match sizeBits c with
         | none => do
           let (xs, r) ← decChunks readBit fuel r0
-          -- each chunk is padded to a byte boundary separately in the code (`b''.join`); identical for a single chunk
-          if xs.length ≥ 16384 then .error .unmodelled else .ok (.bits (packBits xs) xs.length, r)
+          -- the code pads every chunk to a byte boundary separately (`b''.join`); every chunk but the
+          -- last is a multiple of 16384 bits, so that is the same as packing the whole bit string
+          .ok (.bits (packBits xs) xs.length, r)
         | some w => do
           let (len, r) ← (if some c.lo ≠ c.hi then do let (d, r) ← readNat w r0; .ok (c.lo + d, r) else .ok (c.lo, r0))
           let (body, r') ← readBits len r
